@@ -33,7 +33,6 @@ Inductive err :=
   | EIndex          (* IndexError *)
   | EStep0          (* ValueError: slice step cannot be zero *)
   | EKind           (* SeriesAxis indexed with something that is not an int or a slice *)
-  | EVectorize0     (* ValueError: np.vectorize on size 0 (S-C18b) *)
   | EShape          (* ValueError: incorrect shape *)
   | EVolume         (* ValueError: affine / volume shape missing or different *)
   | ENegative       (* ValueError: undefined vertex / voxel indices *)
@@ -232,18 +231,16 @@ Definition bm_make (name : list Z) (voxel : list ijk) (vertex : list Z) (v : opt
                    (nv : nvdict) : res bm :=
   (* nvertices entries whose structure does not occur are deleted *)
   let nv' := filter (fun kv => zmem (fst kv) name) nv in
-  match name with
-  | [] => Err EVectorize0          (* surface_mask: np.vectorize on a size-0 array *)
-  | _ =>
-    if negb ((zlen voxel =? zlen name) && (zlen vertex =? zlen name)) then Err EShape else
-    let sm := map (is_surf nv') name in
-    let allsurf := forallb (fun b => b) sm in
-    if negb allsurf && is_none v then Err EVolume else
-    let v' := if allsurf then None else v in
-    if existsb (fun p => fst p && (snd p <? 0)) (combine sm vertex) then Err ENegative else
-    if existsb (fun p => negb (fst p) && ijk_neg (snd p)) (combine sm voxel) then Err ENegative else
-    Ok (mkBm name voxel vertex v' nv')
-  end.
+  if negb ((zlen voxel =? zlen name) && (zlen vertex =? zlen name)) then Err EShape else
+  (* surface_mask (np.vectorize with otypes=[bool] since 82b9e2d7: an empty axis gives an empty
+     mask, `all()` of which is True, so an empty axis has no volume and no nvertices) *)
+  let sm := map (is_surf nv') name in
+  let allsurf := forallb (fun b => b) sm in
+  if negb allsurf && is_none v then Err EVolume else
+  let v' := if allsurf then None else v in
+  if existsb (fun p => fst p && (snd p <? 0)) (combine sm vertex) then Err ENegative else
+  if existsb (fun p => negb (fst p) && ijk_neg (snd p)) (combine sm voxel) then Err ENegative else
+  Ok (mkBm name voxel vertex v' nv').
 
 Definition bm_len (a : bm) : Z := zlen (b_name a).
 Definition bm_surface_mask (a : bm) : list bool := map (is_surf (b_nv a)) (b_name a).
